@@ -207,10 +207,20 @@ func (v *VecDense) CloneFromVec(a Vector) {
 		return
 	}
 	n := a.Len()
-	v.mat = blas64.Vector{
-		N:    n,
-		Inc:  1,
-		Data: use(v.mat.Data, n),
+	if v.IsEmpty() || (v.mat.Inc == 1 && n <= v.mat.N) {
+		v.mat = blas64.Vector{
+			N:    n,
+			Inc:  1,
+			Data: use(v.mat.Data, n),
+		}
+	} else {
+		// The receiver may be a view of a larger matrix;
+		// do not write between or beyond its elements.
+		v.mat = blas64.Vector{
+			N:    n,
+			Inc:  1,
+			Data: make([]float64, n),
+		}
 	}
 	if r, ok := a.(RawVectorer); ok {
 		blas64.Copy(r.RawVector(), v.mat)
